@@ -3499,6 +3499,11 @@ func ruleAddSaturates(w *World, r *Report, rule string) {
 			if !((xs == "p0" && ys == amt) || (ys == "p0" && xs == amt)) {
 				continue
 			}
+			// in the time's own unsigned domain: converted to the signed amount type a time from 2038 on is negative
+			// and every step back looks larger than it
+			if !unsignedType(cmp.X.Type()) {
+				continue
+			}
 			for k, sc := range b.Succs {
 				if edgeDominates(b, sc, bo.Block()) {
 					// the other outcome ends in a constant return
